@@ -52,7 +52,7 @@ fn executions(g: &G) -> Vec<Vec<u8>> {
         out.extend(layer.iter().cloned());
         let mut next = Vec::new();
         for p in &layer {
-            for t in &g.edges[*p.last().unwrap() as usize] {
+            for t in g.edges[*p.last().unwrap() as usize].iter().filter(|t| **t < 0x80) { // >= 0x80: ignored action
                 let mut q = p.clone();
                 q.push(*t);
                 next.push(q);
